@@ -188,6 +188,10 @@ def judge(sc, obs):
                     uncertain.discard(op["k"])
             else:
                 if stable:
+                    if not any(o2["op"] in ("stop", "arm") for o2 in sc["ops"][:i]) and "client is closed" in str(r):
+                        # nobody was stopped yet: memberlist suspected a live member (busy machine) and its peers closed
+                        # their connections to it. Environment, not the property.
+                        return ("env", "a live member was suspected dead before any failure was injected: %s" % r)
                     return (i, "Put through %s on the re-stabilised cluster returned %s" % (op["c"], r))
                 uncertain.add(op["k"])
         elif o == "del":
@@ -239,7 +243,7 @@ def run(res):
     d40n = 0
     for sc in scs:
         r = results[sc["id"]]
-        if r.get("env", {}).get("error"):
+        if r.get("env", {}).get("error") or r.get("env", {}).get("flapped"):
             envfail += 1
             continue
         if "_two" in sc and kf40 and len(r["obs"]) >= len(sc["ops"]):
@@ -272,7 +276,7 @@ def run(res):
     tcases, scases, ccases, mstats, fired = [], [], [], {}, {}
     for sc in scs:
         r = results[sc["id"]]
-        if not sc.get("_model") or r.get("env", {}).get("error") or len(r["obs"]) < len(sc["ops"]):
+        if not sc.get("_model") or r.get("env", {}).get("error") or r.get("env", {}).get("flapped") or len(r["obs"]) < len(sc["ops"]):
             continue
         if sc.get("_point"):
             f = [ob.get("fired") for op, ob in zip(sc["ops"], r["obs"]) if op["op"] == "fired"]
